@@ -145,6 +145,39 @@ CHECKS = {
         "fixed-point iterations, the global error bound of adaptive stepping, scipy's integrator, round-off equality between backends; the "
         "fixed-step loop skeleton is decided by C07.",
     },
+    "C13": {
+        "level": "proof",
+        "technique": "static: abstract interpretation of the stochastic stepping closures with uninterpreted rate/variance/noise symbols; symbolic increment identity; event-order, draw-count and generator rules on the extracted trace",
+        "text": "The Euler-Maruyama, Milstein and semi-implicit closures are interpreted from source; the update is proved equal to "
+        "dt*f + sqrt(var*dt/V)*xi + 1/2*alpha*dt*var'/V (+ 1/4*var'/V*((sqrt(dt) xi)^2 - dt) for Milstein; the semi-implicit map iterates "
+        "from u + sqrt(var*dt/V)*xi) identically in all symbols, for alpha = 0 and alpha != 0, with the cell volume V. Exactly one normal "
+        "draw per step, after all field-dependent evaluations at the pre-step state, from the generator pde.rng; numpy noise is "
+        "rng.standard_normal(shape); the interpretation table and the is_sde dispatch (vanishing variance -> deterministic closure) are "
+        "evaluated from source; per-field variances are written to the field's own slice.",
+        "note": "Trusted: CPython ast, sympy, numpy's Generator. Not decided: numba's own generator (outside the bit-for-bit clause), user "
+        "supplied noise realisations, float round-off.",
+    },
+    "C14": {
+        "level": "other",
+        "technique": "static: constructor may-dataflow (token domain) vs. state readers; key-table equality; inverse (de)serialiser pairs; dim/num_axes typing of component counts; symbolic slice-cursor recurrence",
+        "text": "For every concrete grid class, each piece of identity filled from a constructor parameter is read by `state`; state, from_state "
+        "and constructor key sets coincide; copy, deepcopy, JSON and pickle route through them. Field attribute keys written equal those "
+        "consumed, with an inverse (de)serialiser pair per key. Every tensor component count uses `dim`. Collection slices are cumulative "
+        "in field order.",
+        "note": "Trusted: CPython ast; sympy for cursor differences; getter/setter coherence; the conversion whitelist "
+        "(tuple/list/float/int/bool/np.array/.copy); the rank/dim identifier table. Not decided: JSON float exactness; h5py/movie readers "
+        "beyond the shared (de)serialisers.",
+    },
+    "C17": {
+        "level": "other",
+        "technique": "static: path-enumerating ast->sympy extraction of partition and cursor recurrences, neighbour case table (finite-model evaluation of the extracted table), MPI index tuples incl. compiled sibling; constructor-parameter matching of to_subgrid/from_bounds",
+        "text": "Every bookkeeping ingredient of an exact tiling holds for all shapes and decompositions: one integer partition; start=end "
+        "chaining on the parent lattice; slice chaining with overlap 2 iff ghost cells; a symmetric, periodicity-respecting neighbour "
+        "table; _MPIBC reads -2|1 and writes -1|0; an MPI condition iff a neighbour exists; every to_subgrid and from_bounds reconstructs "
+        "with the same parameters.",
+        "note": "Trusted: documented semantics of np.linspace, astype(int), diff and (un)ravel_index; the small-model argument for mesh sizes "
+        "<= 7 (guards compare k with 0 and size-1 only). Not decided: end-to-end operator equality under MPI execution.",
+    },
 }
 
 NOT_APPLICABLE: dict[str, str] = {}
